@@ -177,6 +177,13 @@ def run_symx(prop, tier, seed, spec):
             v["replay_detail"] = json.dumps(rep.get("failures", [])[:2]) + str(rep.get("uncaught_panic") or "")
             part["violations"].append(v)
             if not reproduced:
+                # once: explore that scenario again; a counterexample that is gone was a transient solver
+                # hiccup (recorded), one that persists without reproducing is an encoder problem (exit 2)
+                again = rerun_scenario(prop, tier, seed, threads, timeout_ms, v["scenario"])
+                if again is not None and not any(x.get("label") == v["label"] for x in again):
+                    part.setdefault("transient", []).append("%s/%s: a model that did not reproduce was not found again on re-exploration" % (v["scenario"], v["label"]))
+                    part["violations"].pop()
+                    continue
                 part["ok"] = False
                 part["inconclusive"].append(
                     "model for %s/%s does not reproduce on the real build (symbolic numerics or codec wrong?): %s" % (v["scenario"], v["label"], path)
@@ -184,8 +191,27 @@ def run_symx(prop, tier, seed, spec):
         for b in (rbin, rbin_rel):
             if b and os.path.exists(b):
                 os.remove(b)
+    part["coverage"]["transient_solver_disagreements"] = part.get("transient", [])
     part["wall_s"] = round(time.time() - t0, 1)
     return part
+
+
+def rerun_scenario(prop, tier, seed, threads, timeout_ms, scenario):
+    try:
+        _, sbin = gen.prepare("s")
+    except gen.EncoderError:
+        return None
+    out = os.path.join(gen.CACHE, "out-rerun-%s-%d.json" % (prop, os.getpid()))
+    try:
+        subprocess.run([sbin, prop, "--tier", tier, "--threads", str(threads), "--seed", str(seed), "--out", out, "--timeout-ms", str(timeout_ms), "--scenario", scenario], stdout=subprocess.PIPE, stderr=subprocess.PIPE, text=True, timeout=3600)
+        doc = json.load(open(out))
+        return [v for s_ in doc["scenarios"] for v in s_.get("violations", [])]
+    except Exception:  # noqa
+        return None
+    finally:
+        for f in (out, sbin):
+            if os.path.exists(f):
+                os.remove(f)
 
 
 def numerics_selftest(sbin):
